@@ -458,11 +458,11 @@ func (d *pipeDriver) writeWave(wave []*wavePkt, offs []int, gaps []bool) {
 		if ci < len(gaps) && gaps[ci] {
 			// let the service read what it has: the packets that are complete
 			// are answered (bounded wait), otherwise give it a moment
-			limit := time.After(3 * time.Second)
+			limit := time.Now().Add(3 * time.Second)
 			for i := 0; i < announced; i++ {
 				select {
 				case <-wave[i].fin:
-				case <-limit:
+				case <-time.After(time.Until(limit)):
 				case <-c.readDone:
 				}
 			}
